@@ -534,4 +534,34 @@ PROPS['C12']['bounded_part'] = ('the characters: str.partition/strip/split, %-pa
                                 'round trips and independent reference readers/writers over the stated table sizes, label alphabets (incl. long lines), encodings and dialects')
 PROPS['C11']['units'] += ['formats.python_literal.load_file', 'formats.python_literal.dump_file.fresh', 'formats.python_literal.dump_file.serialized']
 PROPS['C11']['proved_part'] += '; the python-literal file form: load_file (cell matrix from the index form) and dump_file (index form, section order) at structure level'
+# units for the remaining small functions (contracts/cover_core.py, contracts/cover_io.py)
+_COVER = {
+    'C12': ['concepts.load', 'concepts.load_cxt', 'concepts.load_csv', 'concepts.make_context', 'tools.write_csv_file', 'tools.csv_iterrows', 'tools.write_csv', 'tools.write_lines',
+            'tools.snakify', 'formats.FormatMeta.__init__', 'formats.Format.loadf', 'formats.Format.dumpf', 'formats.fimi.read_concepts_dat', 'formats.fimi.write_concepts_dat',
+            'definitions.fromfile', 'tools.max_len', 'tools.max_len.minimum', '_common.ConceptList.tofile.default', '_common.ConceptList.tofile.fimi', '_common.ConceptList.tofile.csv',
+            'tools.sha256sum'],
+    'C11': ['tools.dump_json', 'tools.load_json', 'tools._call_json', 'tools._get_fileobj', 'members.Pair._eq', 'lattices._eq', 'members.Pair.extent', 'members.Pair.intent'],
+    'C14': ['tools.crc32_hex', 'contexts.copy', 'contexts.copy.include_lattice', 'tools.lazyproperty.__init__', '_common.Shape.rows', '_common.Shape.columns', '_common.Shape.__repr__',
+            'contexts.__str__', 'contexts.__repr__', 'contexts.objects', 'contexts.properties', 'contexts.bools'],
+    'C20': ['visualize.render_all'],
+    'C19': ['contexts.objects', 'contexts.properties', 'contexts.bools'],
+    'C01': ['contexts.objects', 'contexts.properties', 'contexts.bools'],
+    'C13': ['definitions.__getitem__', 'definitions.__getitem__.int0', 'definitions.__getitem__.int1', 'definitions.__getitem__.int2', 'definitions.__getitem__.int3',
+            'definitions.__ne__', 'tools.Unique.rsub', 'lemma.rsub_model', 'tools.Unique.__repr__', 'definitions.__str__', 'definitions.__repr__'],
+    'C09': ['lattices.upset_generalization', 'lemma.traversal.generalization'],
+    'C16': ['junctors.Unary.__init__', 'junctors.Unary.__str__', 'junctors.Unary.__repr__', 'junctors.Binary.__init__', 'junctors.Binary.__str__', 'junctors.Binary.__repr__',
+            'junctors.Relations.__str__', 'junctors.RelationMeta.__init__.Relation', 'junctors.RelationMeta.__init__.Unary', 'junctors.RelationMeta.__init__.Binary'],
+    'C04': ['_common.Concept.objects', '_common.Concept.properties', '_common.Concept.n_objects', '_common.Concept.n_properties', '_common.Concept.__str__',
+            '_common.Concept.extent_index_set', '_common.Concept.intent_index_set', '_common.Concept.index_sets'],
+    'C08': ['members.__str__', 'members.__repr__'],
+    'C03': ['lattices.__str__', 'lattices.__repr__', 'bitsets.Series.frommembers'],
+}
+for _p, _l in _COVER.items():
+    PROPS[_p]['units'] = PROPS[_p]['units'] + [u for u in _l if u not in PROPS[_p]['units']]
+PROPS['C16']['proved_part'] += ('; RelationMeta.__init__ executed on the real docstring tables (classes, patterns, kinds and ranks = the oracle, each registered once); Unary/Binary '
+                                'constructors and printers; Context.relations builds a fresh Relations from the property columns')
+PROPS['C09']['proved_part'] += '; upset_generalization: worklist invariant + corollary lemma (the concepts between a member of the collection and the union of the minimal members\' extents)'
+PROPS['C13']['proved_part'] += '; d[o, p] / d[i] reads, __ne__, Unique.rsub against a recursive model (lemma.rsub_model)'
+PROPS['C11']['proved_part'] += '; the JSON path of tools (dump_json/load_json/_call_json/_get_fileobj: which file object, mode, encoding, closing); Pair._eq / Lattice._eq (the structural equality behind "indistinguishable")'
+PROPS['C19']['proved_part'] += '; the observables Context.objects / properties / bools (member labels of the bitset classes, rows of _intents)'
 NOT_APPLICABLE = {}
